@@ -205,7 +205,8 @@ func (e *Env) arrTerm(st *State, v Val) string {
 		return name
 	}
 	es := sliceElemSort(e.D, s)
-	arr := e.D.fresh("arr", fmt.Sprintf("(Array (_ BitVec 64) %s)", es))
+	// deterministic base array: two conversions of the same concrete slice must yield equal terms
+	arr := e.D.namedConst("basearr_"+mangleSort(es), fmt.Sprintf("(Array (_ BitVec 64) %s)", es))
 	t := arr
 	for i, el := range v.Elems {
 		t = fmt.Sprintf("(store %s %s %s)", t, bvLit(uint64(i), 64), e.term(st, el))
@@ -371,10 +372,8 @@ func (e *Env) lenOf(st *State, v Val) string {
 	return bvLit(0, 64)
 }
 
-// slenBV: length of a Str as BV64 (slen is Int; lengths are < 2^62).
+// slenBV: length of a Str as BV64 (uninterpreted slen64; sums of lengths are assumed not to wrap).
 func (e *Env) slenBV(st *State, t string) string {
-	e.D.declFun("slen64", "(define-fun slen64 ((x Str)) (_ BitVec 64) ((_ int2bv 64) (slen x)))")
-	e.D.declFun("slen_nonneg", "(declare-fun slen_nonneg () Bool)")
 	return tApp("slen64", t)
 }
 
@@ -437,7 +436,7 @@ func (e *Env) setIndex(st *State, v Val, idx string, nv Val, pos token.Pos) Val 
 	if s == sStr {
 		// byte write into symbolic bytes: result is an unknown string of same length
 		r := e.D.fresh("bytes_upd", sStr)
-		st.assume(tEq(tApp("slen", r), tApp("slen", e.term(st, v))))
+		st.assume(tEq(tApp("slen64", r), tApp("slen64", e.term(st, v))))
 		return e.wrapTerm(v.Typ, r)
 	}
 	e.fail("setIndex of %s", v.Typ)
@@ -638,8 +637,64 @@ func (e *Env) globalInit(st *State, g *ssa.Global) (Val, bool) {
 			v.Typ = et
 			return v, true
 		}
+	case *ssa.Slice:
+		// []byte{c0, c1, ...}: a fresh array filled with constants, then sliced
+		al, ok := x.X.(*ssa.Alloc)
+		if !ok || x.Low != nil || x.High != nil || e.sortOfT(et) != sStr {
+			break
+		}
+		at, ok := al.Type().(*types.Pointer).Elem().Underlying().(*types.Array)
+		if !ok || at.Len() > 64 {
+			break
+		}
+		buf := make([]byte, at.Len())
+		okAll := true
+		for _, b := range init.Blocks {
+			for _, ins := range b.Instrs {
+				s, ok := ins.(*ssa.Store)
+				if !ok {
+					continue
+				}
+				ia, ok := s.Addr.(*ssa.IndexAddr)
+				if !ok || ia.X != al {
+					continue
+				}
+				ic, ok1 := ia.Index.(*ssa.Const)
+				vc, ok2 := s.Val.(*ssa.Const)
+				if !ok1 || !ok2 || ic.Value == nil || vc.Value == nil {
+					okAll = false
+					continue
+				}
+				buf[ic.Int64()] = byte(vc.Uint64())
+			}
+		}
+		if okAll {
+			return Val{K: kTerm, Typ: et, Sort: sStr, T: e.D.strLit(string(buf)), Segs: litSegs(string(buf))}, true
+		}
 	}
 	return Val{}, false
+}
+
+// rootSymbol: the innermost constant a selector/select term is built from ("" if not of that shape).
+func rootSymbol(t string) string {
+	for strings.HasPrefix(t, "(") {
+		parts := sexprSplit(t[1 : len(t)-1])
+		if len(parts) < 2 {
+			return ""
+		}
+		if parts[0] == "select" || parts[0] == "ite" {
+			t = parts[1]
+			continue
+		}
+		t = parts[len(parts)-1]
+		if len(parts) > 2 && !strings.HasPrefix(parts[0], "S_") && !strings.HasPrefix(parts[0], "val_") && !strings.HasPrefix(parts[0], "arr_") {
+			return ""
+		}
+		if len(parts) > 2 {
+			t = parts[1]
+		}
+	}
+	return t
 }
 
 func appendUniq(xs []string, x string) []string {
@@ -1384,6 +1439,16 @@ func (e *Env) equal(st *State, a, b Val) string {
 	if strings.HasPrefix(sa, "Slice_") {
 		// only nil comparisons are legal Go for slices
 		return tEq(tApp("len_"+sa, at), bvLit(0, 64))
+	}
+	if strings.HasPrefix(sa, "Opt_") && a.K == kTerm && b.K == kTerm && e.specMode == 0 {
+		// Go compares pointers by identity, the model keeps pointees by value. Two pointer values that
+		// stem from different roots (different parameters / call results) denote different allocations:
+		// they are equal only if both are nil. Same root: structural equality is the best the model can say.
+		ra, rb := rootSymbol(at), rootSymbol(bt)
+		if ra != "" && rb != "" && ra != rb && !strings.HasPrefix(at, "none_") && !strings.HasPrefix(bt, "none_") {
+			e.notes["pointer comparison between values of different provenance: equal only if both nil"]++
+			return tAnd(tEq(at, "none_"+sa), tEq(bt, "none_"+sa))
+		}
 	}
 	return tEq(at, bt)
 }
